@@ -98,6 +98,27 @@ func (ep *episode) baseFile(spec string) ([]byte, error) {
 		}
 		buf.WriteString("endsolid verif\n")
 		out = buf.Bytes()
+	case "rand": // arbitrary bytes
+		r := simcore.NewRNG(uint64(num(2)))
+		out = make([]byte, num(1))
+		for i := range out {
+			out[i] = byte(r.Uint64())
+		}
+	case "tokens": // random sequence of STL keywords and numbers, one to five tokens per line
+		r := simcore.NewRNG(uint64(num(2)))
+		vocab := []string{"solid", "facet", "normal", "outer", "loop", "vertex", "vertex", "vertex", "endloop", "endfacet", "endsolid", "1", "-2.5", "3e4", "0", "1e-3", "abc", "+7", ".5", "vertex1"}
+		var buf bytes.Buffer
+		for i := 0; i < num(1); i++ {
+			k := 1 + r.Intn(5)
+			for j := 0; j < k; j++ {
+				if j > 0 {
+					buf.WriteByte(' ')
+				}
+				buf.WriteString(vocab[r.Intn(len(vocab))])
+			}
+			buf.WriteByte('\n')
+		}
+		out = buf.Bytes()
 	case "shipped":
 		b, err := os.ReadFile(filepath.Join(repoDir(), "files", parts[1]))
 		if err != nil {
